@@ -129,14 +129,19 @@ def _norm(r):
     return '%s:%r' % (kind, v)
 
 
+_SIZES = {}
+
+
 def _snapshot():
-    """Abstract view of the lazily built shared state (read-only, for the drift check)."""
     m = sys.modules
+    if not _SIZES:
+        _SIZES['athlon'] = len(m['athlib.athlon_score']._scoring_table)
+        _SIZES['hungarian'] = len({tuple(x[:3]) for x in m['athlib.hungarian_score'].FACTORS})
     out = []
     so = getattr(m.get('athlib.athlon_score'), '_scoring_objects', None)
-    out.append('none' if so is None else ('full%d' % len(so) if len(so) >= len(m['athlib.athlon_score']._scoring_table) else 'partial%d' % len(so)))
+    out.append('none' if so is None else ('full%d' % len(so) if len(so) >= _SIZES['athlon'] else 'partial%d' % len(so)))
     tb = getattr(m.get('athlib.hungarian_score'), '_table', None)
-    out.append('none' if tb is None else ('full%d' % len(tb) if len(tb) >= len({tuple(x[:3]) for x in m['athlib.hungarian_score'].FACTORS}) else 'partial%d' % len(tb)))
+    out.append('none' if tb is None else ('full%d' % len(tb) if len(tb) >= _SIZES['hungarian'] else 'partial%d' % len(tb)))
     db = getattr(m.get('athlib.sportshall_score'), '_DB', None)
     out.append('none' if not db else ('full%d' % len(db) if len(db) >= 13 else 'partial%d' % len(db)))
     return ','.join(out)
@@ -183,6 +188,7 @@ def model_events(group, trace, final):
             return False, 0
         return True, int(re.sub(r'\D', '', part) or 0)
     out = []
+    prev = list(state(trace[0][2])) if trace else [False, 0]
     for k, (tid, where, snap) in enumerate(trace):
         fn, _, ln = where.rpartition(':')
         label = 'other'
@@ -196,6 +202,11 @@ def model_events(group, trace, final):
                     break
         post = trace[k + 1][2] if k + 1 < len(trace) else final
         pub, n = state(post)
+        # a line that stands for no model action and leaves the observed state as it was is a pure stuttering step:
+        # not logged (an unlabelled line that *does* change the shared state stays in the trace and is rejected)
+        if label == 'other' and [pub, n] == prev:
+            continue
+        prev = [pub, n]
         out.append([tid + 1, label, pub, n])
     return {'init': list(state(trace[0][2])) if trace else [False, 0], 'events': out}
 
@@ -209,9 +220,13 @@ def _solo(arg):
         return _norm(('exc', type(e).__name__))
 
 
-def _execute(arg):
+def _execute(arg, prepared=False):
+    import time as _t
+    t0 = _t.time()
     sc, segments = arg
-    _prepare(sc)
+    if not prepared:
+        _prepare(sc)
+    t1 = _t.time()
     fns = [(lambda c=c: _call(c)) for c in sc['calls']]
     # every source line inside athlib is a yield point, except for the validation caches, where the schema
     # resolver calls back into athlib thousands of times: there the AST-detected visible lines are used
@@ -221,7 +236,7 @@ def _execute(arg):
     events = model_events(sc['group'], ctl.trace, final) if sc['group'] in LABELS and len(sc['calls']) == 2 else None
     snaps = sorted({s for _, _, s in ctl.trace})
     return {'results': [_norm(r) for r in results], 'executed': executed, 'snaps': snaps, 'events': events,
-            'steps': [[t, w] for t, w, _ in ctl.trace]}
+            'steps': [[t, w] for t, w, _ in ctl.trace], 'dur': [round(t1 - t0, 3), round(_t.time() - t1, 3)]}
 
 
 def _pool_solo(arg):
@@ -230,6 +245,18 @@ def _pool_solo(arg):
 
 def _pool_exec(arg):
     return isolated(_execute, arg)
+
+
+def _prepared_batch(arg):
+    sc, segs = arg
+    _prepare(sc)
+    return [isolated(lambda a: _execute(a, prepared=True), (sc, seg)) for seg in segs]
+
+
+def _pool_batch(arg):
+    """Several schedules of one scenario: the starting state (warm-up calls, cache prefill) is built once in a child of
+    the pristine process, and every schedule runs in its own fork of that child."""
+    return isolated(_prepared_batch, arg)
 
 
 def tail_schedules(sc, counts, window=10):
@@ -245,6 +272,32 @@ def tail_schedules(sc, counts, window=10):
                 for k2 in range(max(1, counts[other] - window), counts[other] + 1):
                     out.append([(first, k1), (other, k2), (first, None), (other, None)])
     return out
+
+
+def _visible_steps(steps):
+    vis = []
+    for k, w in enumerate(steps):
+        fn, _, ln = w.rpartition(':')
+        v = None
+        for sub in ('', 'wma', 'uka'):
+            pth = os.path.join(common.REPO, 'athlib', sub, fn)
+            if os.path.exists(pth):
+                v = sched.visible_lines(pth)
+                break
+        if v and ln.isdigit() and int(ln) in v:
+            vis.append(k)
+    return vis
+
+
+def shared_points(steps):
+    """Points just before and just after the first and the last visit of every distinct line that touches shared
+    state (module globals, self attributes, aliased shared objects): where a second pre-emption can matter."""
+    first, last = {}, {}
+    for k in _visible_steps(steps):
+        first.setdefault(steps[k], k)
+        last[steps[k]] = k
+    ks = set(first.values()) | set(last.values())
+    return sorted(ks | {k + 1 for k in ks})
 
 
 def candidate_points(steps, limit):
@@ -282,7 +335,7 @@ def candidate_points(steps, limit):
     return sorted(k for k in keep if 0 <= k <= n)
 
 
-def schedules_for(sc, counts, max_preempt, rng, cap, points=None):
+def schedules_for(sc, counts, max_preempt, rng, cap, points=None, shared=None):
     """All schedules with <= max_preempt forced pre-emptions; counts[t] = steps of thread t when it runs first;
     points[t] = the candidate pre-emption points of thread t (default: every step)."""
     n = len(sc['calls'])
@@ -303,8 +356,10 @@ def schedules_for(sc, counts, max_preempt, rng, cap, points=None):
             for other in range(n):
                 if other == first:
                     continue
-                for k1 in points[first][::max(1, len(points[first]) // 60)]:
-                    for k2 in [k for k in points[other][::max(1, len(points[other]) // 60)] if k >= 1]:
+                p1 = shared[first] if shared else points[first][::max(1, len(points[first]) // 60)]
+                p2 = shared[other] if shared else points[other][::max(1, len(points[other]) // 60)]
+                for k1 in p1:
+                    for k2 in [k for k in p2 if k >= 1]:
                         two.append([(first, k1), (other, k2), (first, None), (other, None)])
                         if n == 3:
                             third = 3 - first - other
@@ -323,6 +378,9 @@ def run(tier):
     import athlib  # noqa: the parent only imports; children are forked from this pristine state
     from multiprocessing import get_context
     ctx = get_context('fork')
+    import time as _t
+    t0 = _t.time()
+    phases = {}
     with Scratch('C16') as sc_:
         specdir = common.prepare_spec_dir(sc_)
         # (a) models
@@ -335,6 +393,7 @@ def run(tier):
             if r2.violated != inv:
                 raise MachineryError('falsifiability guard: %s as-it-was variant is not refuted (%s)' % (mod, r2.violated))
             rep.cov.setdefault('models', {})[mod] = dict(states=r.distinct, transitions=r.generated, as_was_variant_refuted=True)
+        phases['models'] = round(_t.time() - t0, 1)
         # (b) real code under the scheduler
         S = scenarios(quick)
         with ctx.Pool(common.NCPU) as pool:
@@ -348,21 +407,53 @@ def run(tier):
             it = iter(probes)
             jobs = []
             for s in S:
-                counts, points = {}, {}
+                counts, points, shared = {}, {}, {}
                 for f in range(len(s['calls'])):
                     ex = next(it)
                     counts[f] = sum(1 for t in ex['executed'] if t == f)
                     lim = (45 if s['variant'] == 'cold' else 12) if quick else 600
-                    points[f] = candidate_points([w for t, w in ex['steps'] if t == f][1:], lim)
+                    # own[k] = the line thread f is about to run after k steps (own[0] is its start step)
+                    own = [w for t, w in ex['steps'] if t == f]
+                    points[f] = candidate_points(own, lim)
+                    shared[f] = shared_points(own)
                 s['counts'] = counts
-                for seg in schedules_for(s, counts, 1 if quick else 2, rng, 400 if len(s['calls']) == 2 else 1200, points):
+                # two pre-emptions (thorough): the product of the shared-state points of the two calls, complete for
+                # first calls (lazy initialisation is where check-then-act windows are), sampled when warmed up
+                cap2 = (6000 if s['variant'] == 'cold' else 1200) if len(s['calls']) == 2 else 1200
+                for seg in schedules_for(s, counts, 1 if quick else 2, rng, cap2, points, shared if len(s['calls']) == 2 else None):
                     jobs.append((s, seg))
+                # check-then-act on first use (a lock, a table made lazily): the first caller is stopped right after its
+                # first looks at shared state, the second one anywhere it touches shared state, then the first completes -
+                # two forced pre-emptions, complete over (first four shared-state points) x (all shared-state points)
+                if quick and s['variant'] == 'cold' and len(s['calls']) == 2:
+                    for a, b in ((0, 1), (1, 0)):
+                        for k1 in shared[a][:4]:
+                            for k2 in shared[b]:
+                                if k2 >= 1:
+                                    jobs.append((s, [(a, k1), (b, k2), (a, None), (b, None)]))
                 # the bounded-cache race needs two switches (iterator made, other thread pops, next()):
                 # complete over the last ten visible lines of each call
                 if s['group'] == 'cache' and len(s['calls']) == 2:
                     for seg in tail_schedules(s, counts):
                         jobs.append((s, seg))
-            execs = pool.map(_pool_exec, jobs, chunksize=8)
+            phases['probes'] = round(_t.time() - t0, 1)
+            batches, bidx = [], []
+            k = 0
+            while k < len(jobs):
+                e = k
+                while e < len(jobs) and e - k < 24 and jobs[e][0] is jobs[k][0]:
+                    e += 1
+                batches.append((jobs[k][0], [seg for _, seg in jobs[k:e]]))
+                k = e
+            execs = [x for part in pool.map(_pool_batch, batches, chunksize=1) for x in part]
+        phases['executions'] = round(_t.time() - t0, 1)
+        cpu = {}
+        for (s, seg), ex in zip(jobs, execs):
+            c = cpu.setdefault('%s/%s' % (s['group'], s['variant']), [0, 0.0, 0.0])
+            c[0] += 1
+            c[1] += ex['dur'][0]
+            c[2] += ex['dur'][1]
+        rep.setcov('execution_seconds_by_group', {k: [v[0], round(v[1], 1), round(v[2], 1)] for k, v in sorted(cpu.items())})
         rep.count('evaluations', len(jobs) + len(probes) + len(solos))
         # (c) TLC validates the recorded executions
         recs = []
@@ -395,6 +486,7 @@ def run(tier):
                     rep.add_violation(sig, '%s [%s]: under schedule %s thread %d got %s, single-threaded %s' % (
                         desc, s['variant'], seg, i, ex['results'][i], s['expected'][i]),
                         {'scenario': {k: s[k] for k in ('group', 'calls', 'variant', 'prefill')}, 'segments': seg})
+        phases['record_validation'] = round(_t.time() - t0, 1)
         # code -> spec: the executions of the lazily-built-table code as behaviours of the PlusCal model
         for group in sorted(LABELS):
             tr = [(q, ex['events']) for q, ((s, seg), ex) in enumerate(zip(jobs, execs))
@@ -430,6 +522,8 @@ def run(tier):
                 s, seg = jobs[q]
                 if execs[q]['results'] == s['expected']:
                     rep.add_drift('%s: LazyPublish says a caller missed its row under schedule %s, the real calls answered correctly' % (group, seg))
+        phases['pluscal_trace_validation'] = round(_t.time() - t0, 1)
+        rep.setcov('phase_end_s', phases)
         for (s, seg), ex in zip(jobs, execs):
             distinct.add((s['id'], tuple(ex['executed'])))
         rep.setcov('scenarios', len(S))
